@@ -1,9 +1,10 @@
 use crate::runner::PropDef;
+pub mod c01;
 pub mod c02;
 pub mod c05;
 
 pub fn all() -> Vec<PropDef> {
-    vec![c02::def(), c05::def()]
+    vec![c01::def(), c02::def(), c05::def()]
 }
 pub fn find(id: &str) -> Option<PropDef> {
     all().into_iter().find(|d| d.id == id)
